@@ -127,7 +127,7 @@ CURATED_EQ = [
 
 
 def make_envs(sh, n, rng, pool="full", names=("A", "B", "C"), exhaustive=False):
-    S = sh[pool]
+    S = sh[pool] if pool != "full+deep" else sh["full"] + sh["deep"]
     envs = []
     if exhaustive:
         S2 = [s for s in S if mentions(s) <= set(names)]
@@ -177,10 +177,10 @@ def c08():
         sh = shapes(work)
         envs = [[{"name": n, "t": t} for n, t in e] for e in CURATED_EQ]
         if tr == "quick":
-            envs += make_envs(sh, 260, rng, "full")
+            envs += make_envs(sh, 200, rng, "full") + make_envs(sh, 120, rng, "full+deep")
             envs += make_envs(sh, 0, rng, "small", names=("A", "B"), exhaustive=True)[:400]
         else:
-            envs += make_envs(sh, 4000, rng, "full")
+            envs += make_envs(sh, 3000, rng, "full") + make_envs(sh, 2500, rng, "full+deep")
             envs += make_envs(sh, 0, rng, "small", names=("A", "B"), exhaustive=True)
             envs += make_envs(sh, 3000, rng, "small")
         # real calls
@@ -340,7 +340,8 @@ CURATED_W = [
 
 
 def make_written(sh, n, rng):
-    pool = [strip_modes(s) for s in sh["full"]]
+    pool = [strip_modes(s) for s in sh["full"]] + [strip_modes(s) for s in rng.sample(sh["deep"], min(len(sh["deep"]), 150))] \
+        + [strip_modes(s) for s in rng.sample(sh["shift2"], min(len(sh["shift2"]), 150))]
     # de-duplicate after stripping
     seen, P = set(), []
     for s in pool:
@@ -375,7 +376,7 @@ def smart_written(sh, n, rng):
     """environments biased towards acceptance: all names defined, annotation from the fixing component or free"""
     pool = []
     seen = set()
-    for s in sh["full"]:
+    for s in sh["full"] + rng.sample(sh["deep"], min(len(sh["deep"]), 200)) + rng.sample(sh["shift2"], min(len(sh["shift2"]), 100)):
         w = strip_modes(s)
         key = json.dumps(w, sort_keys=True)
         if key not in seen:
@@ -411,6 +412,11 @@ def types_campaign():
     W = [[{"name": n, "ann": a, "t": t} for n, a, t in e] for e in CURATED_W]
     nrand, nsmart = (250, 450) if tr == "quick" else (3000, 6000)
     W += make_written(sh, nrand, rng) + smart_written(sh, nsmart, rng)
+    # a shift directly under a shift: every combination of the 4 x 4 mode pairs on both levels (sampled in the quick tier)
+    s2 = sh["shift2"] if tr != "quick" else rng.sample(sh["shift2"], 220)
+    W += [[{"name": "A", "ann": "", "t": strip_modes(x)}] for x in s2]
+    W += [[{"name": "A", "ann": "", "t": strip_modes(x)}, {"name": "B", "ann": "", "t": {"k": "send", "l": {"k": "name", "name": "A", "mode": ""}, "r": {"k": "unit", "mode": ""}, "mode": ""}}]
+          for x in rng.sample(sh["shift2"], 60)]
     cases = []
 
     def run_chunk(chunk):
